@@ -165,14 +165,19 @@ def _observe(case: dict) -> dict:
         obs = {"same": s_up == s_down, "su": s_up, "sd": s_down, "rl": []}
         try:
             merged = combine_modules(current, previous)
+            after_up = [_module(m) for m in previous.modules]
+            after_down = [_module(m) for m in current.modules]
+            # compression only: a list that equals the one before the call is not shipped twice
+            same_up, same_down = after_up == event["pa"]["v"], after_down == event["pb"]["v"]
             obs["out"] = {"exc": "", "v": {"merged": merged is not None,
                                            "m": _module(merged) if merged is not None else DUMMY_MODULE,
-                                           "qa": [_module(m) for m in previous.modules],
-                                           "qb": [_module(m) for m in current.modules]}}
+                                           "qa_eq": same_up, "qa": [] if same_up else after_up,
+                                           "qb_eq": same_down, "qb": [] if same_down else after_down}}
             if merged is not None:
                 obs["rl"] = [_reload(merged)]
         except Exception as err:  # pylint: disable=broad-except
-            obs["out"] = {"exc": type(err).__name__, "v": {"merged": False, "m": DUMMY_MODULE, "qa": [], "qb": []}}
+            obs["out"] = {"exc": type(err).__name__, "v": {"merged": False, "m": DUMMY_MODULE, "qa_eq": False, "qa": [],
+                                                           "qb_eq": False, "qb": []}}
         event["obs"].append(obs)
     return event
 
@@ -406,7 +411,7 @@ def _canary(ctx):
         corrupt(gene, lambda ev: flip(ev["rl"][0]["v"]["m"], "first"))
         corrupt(gene, lambda ev: ev["rl"][1].update(exc="ValueError"))
     if pair["obs"] and not pair["obs"][0]["out"]["exc"] and pair["obs"][0]["out"]["v"]["merged"]:
-        corrupt(pair, lambda ev: ev["obs"][0]["out"]["v"]["qb"].extend(ev["pb"]["v"]))
+        corrupt(pair, lambda ev: ev["obs"][0]["out"]["v"].update(qb_eq=True))
         corrupt(pair, lambda ev: ev["obs"][0].update(same=False))
         corrupt(pair, lambda ev: ev["obs"][0]["out"]["v"]["m"]["comps"].reverse())
         corrupt(pair, lambda ev: ev["obs"][0]["out"].update(exc="KeyError"))
